@@ -1031,3 +1031,56 @@ RS.rules.append(Rule('C05.R8', 'K-TABLE', 'a pathname that ends with `/` or `/.`
                      '`d/*/` yields no links to regular files and no dangling links (C19.R19b)', _c19_kind_tests_accept_directories_only))
 RS.explanation += (' The scan loop over Dir::next is left only at the end-of-directory edge or with a Break (R7). The simulated path walk '
                    'behind fstatat lets only a Directory through a trailing `/` or `/.` (R8 = C19.R19b).')
+
+
+# ---------------------------------------------------------------------------------------
+# added in wave 5 (reported as pre-existing by seed agent C05w5; sibling of C04.R9 / fix acc0ea7)
+@RS.rule('C05.R9', 'K-TABLE', 'an unquoted backslash coming from an expansion escapes the next character OF THE PATTERN in pathname expansion too: '
+         'the pattern character iterator of to_pattern, evaluated on every two-element sequence (quoting character, character) in both '
+         'escape states, carries the escape state over a quoting character unchanged - the quoting character (an empty pair of quotes '
+         'after the backslash) is not part of the pattern and must not use the escape up (C04.R9 is the same clause for case / trim)')
+def r9(cx):
+    F = cx.F
+    nxt = [k for k in F.hir if k.startswith('<' + TO_PATTERN + '::') and k.endswith('Iterator>::next')]
+    cx.require(len(nxt) == 1, 'to_pattern::Chars::next not found')
+    nfn = nxt[0]
+    cx.fn(nfn)
+    chars_adt = re.match(r'^<(.*?)<', nfn).group(1)
+    feed = []
+
+    def extern(name, recv, args, node):
+        if name == 'core::iter::traits::iterator::Iterator::next' and recv == ('O', 'inner'):
+            return V(SOME, feed.pop(0)) if feed else V(NONE)
+        raise Undecidable('Chars::next: call of %s is not modelled' % name)
+
+    def ac(val, org, quoted, quoting):
+        return MutStruct(ATTRCHAR, {'value': val, 'origin': V('%s::%s' % (ORIGIN, org)), 'is_quoted': quoted, 'is_quoting': quoting})
+    for nq in (False, True):
+        for qval in ('"', "'", '\\'):
+            for qorg in _variants(F, ORIGIN):
+                for qquoted in (False, True):
+                    for nquoting in (1, 2):
+                        for val in ('*', '\\'):
+                            feed[:] = [ac(qval, qorg, qquoted, True) for _ in range(nquoting)] + [ac(val, 'SoftExpansion', False, False)]
+                            me = MutStruct(chars_adt, {'inner': ('O', 'inner'), 'next_quoted': nq})
+                            res = freeze(Interp(F, extern).call_fn(nfn, [me]))
+                            cx.cellcount(1)
+                            want = V(SOME, V(PCHAR + ('::Literal' if nq else '::Normal'), val))
+                            want_nq = (not nq) and val == '\\'
+                            cell = '%s/%dx quoting %s %s %s/then %s' % ('after-backslash' if nq else 'plain', nquoting, repr(qval), qorg,
+                                                                      'quoted' if qquoted else 'unquoted', 'backslash' if val == '\\' else 'star')
+                            if res != want:
+                                cx.violation(nfn, 'escape-used-up-by-quoting-character' if nq else 'quoting-character-escapes',
+                                             'after %s, %d quoting character(s) and then an unquoted %r from an expansion give %s, expected %s: '
+                                             'with p=\'\\\', `echo $p""*` treats the `*` as a wildcard although `echo $p*` takes it literally '
+                                             '(dash, bash: both literal)'
+                                             % ('an unquoted backslash' if nq else 'an ordinary character', nquoting, val, _short(res), _short(want)),
+                                             loc=_hloc(F, nfn))
+                            elif me.fields['next_quoted'] is not want_nq:
+                                cx.violation(nfn, 'escape-state-after-quoting-character:' + cell, 'after this sequence the iterator %s the next '
+                                             'character as escaped' % ('treats' if me.fields['next_quoted'] else 'does not treat'), loc=_hloc(F, nfn))
+    cx.site('%s: escape state carried over quoting characters (2 states x 3 quote marks x origins x quoted x 1-2 marks x 2 followers)' % nfn)
+
+
+RS.explanation += (' The escape state of the pattern character iterator survives quoting characters: a backslash from an expansion escapes the '
+                   'next character of the pattern, not an empty pair of quotes (R9, sibling of C04.R9).')
